@@ -139,11 +139,84 @@ def _reader(r, p):
     r.ok("C04.reader", rd.key, "lines come from iterating the file; %d terminator strips, nothing else edits a line before the tokenizer" % n_edits)
 
 
+class _Desugar(ast.NodeTransformer):
+    """`return [E for T in I if C]` / `x = [E for T in I if C]` -> the equivalent empty-list + for + append form, so that the
+    loop rules of the word-domain prover and the shape-based side conditions see one idiom for both spellings."""
+
+    def __init__(self):
+        self.n = 0
+
+    def _loop(self, comp, out):
+        g = comp.generators[0]
+        body = [ast.Expr(value=ast.Call(func=ast.Attribute(value=ast.Name(id=out, ctx=ast.Load()), attr="append", ctx=ast.Load()), args=[comp.elt], keywords=[]))]
+        for c in reversed(g.ifs):
+            body = [ast.If(test=c, body=body, orelse=[])]
+        return ast.For(target=g.target, iter=g.iter, body=body, orelse=[])
+
+    def _ok(self, v):
+        if not (isinstance(v, ast.ListComp) and len(v.generators) == 1 and not v.generators[0].is_async):
+            return False
+        g = v.generators[0]
+        # `[x for x in L]` (optionally `if x != ""`) is understood natively by the prover (keeps every non-empty piece)
+        if isinstance(v.elt, ast.Name) and isinstance(g.target, ast.Name) and v.elt.id == g.target.id:
+            return False
+        return True
+
+    def _block(self, stmts):
+        out = []
+        for st in stmts:
+            if isinstance(st, ast.Return) and self._ok(st.value):
+                self.n += 1
+                name = "lComprehension%d" % self.n
+                new = [ast.Assign(targets=[ast.Name(id=name, ctx=ast.Store())], value=ast.List(elts=[], ctx=ast.Load())), self._loop(st.value, name), ast.Return(value=ast.Name(id=name, ctx=ast.Load()))]
+            elif isinstance(st, ast.Assign) and len(st.targets) == 1 and isinstance(st.targets[0], ast.Name) and self._ok(st.value) and not any(isinstance(x, ast.Name) and x.id == st.targets[0].id for x in ast.walk(st.value)):
+                name = st.targets[0].id
+                new = [ast.Assign(targets=[ast.Name(id=name, ctx=ast.Store())], value=ast.List(elts=[], ctx=ast.Load())), self._loop(st.value, name)]
+            else:
+                new = [st]
+                for field in ("body", "orelse", "finalbody"):
+                    sub = getattr(st, field, None)
+                    if isinstance(sub, list) and sub and isinstance(sub[0], ast.stmt):
+                        setattr(st, field, self._block(sub))
+            for x in new:
+                if x is not st:
+                    ast.copy_location(x, st)
+                    for y in ast.walk(x):
+                        if not hasattr(y, "lineno") and isinstance(y, (ast.expr, ast.stmt)):
+                            ast.copy_location(y, st)
+            out.extend(new)
+        return out
+
+    def visit_FunctionDef(self, node):
+        node.body = self._block(node.body)
+        self.generic_visit(node)
+        return node
+
+
+class _Shim:
+    def __init__(self, fi, node):
+        self.node = node
+        self.loc = fi.loc
+        self.params = fi.params
+        self.key = fi.key
+        self.name = fi.name
+
+
 def _tokenizer(r, p):
+    import copy
+
     mod = p.module("vsg.tokens")
-    funcs = {n.name: n for n in mod.tree.body if isinstance(n, ast.FunctionDef)}
-    consts = {t.id for n in mod.tree.body if isinstance(n, ast.Assign) for t in n.targets if isinstance(t, ast.Name)}
-    cls = p.cls("vsg.tokens:New")
+    tree = _Desugar().visit(copy.deepcopy(mod.tree))
+    for node in ast.walk(tree):
+        for child in ast.iter_child_nodes(node):
+            child._parent = node
+    funcs = {n.name: n for n in tree.body if isinstance(n, ast.FunctionDef)}
+    consts = {t.id for n in tree.body if isinstance(n, ast.Assign) for t in n.targets if isinstance(t, ast.Name)}
+    cls0 = p.cls("vsg.tokens:New")
+    cnode = [n for n in tree.body if isinstance(n, ast.ClassDef) and n.name == "New"][0]
+
+    class cls:  # the class as seen through the desugared copy
+        methods = {n.name: _Shim(cls0.methods[n.name], n) for n in cnode.body if isinstance(n, ast.FunctionDef) and n.name in cls0.methods}
     create = p.function("vsg.tokens:create")
     # pipeline shape: oLine = New(s); oLine.m1(); ...; return oLine.lChars
     body = [s for s in create.node.body if not (isinstance(s, ast.Expr) and isinstance(s.value, ast.Constant))]
